@@ -78,7 +78,7 @@ def run_rt(name, L, build, res, identity_of=None):
 
         def mkcase(why):
             if eng.check3() == 'sat':
-                pl = bytes(eng.solver.model().eval(sym.byte_term(e), model_completion=True).as_long() for e in p.e)
+                pl = bytes(eng.model().eval(sym.byte_term(e), model_completion=True).as_long() for e in p.e)
                 res['cex'].append({'kind': 'roundtrip', 'payload': pl.hex(), 'why': why, 'dedup': f"{name}:{why[:40]}"})
             else:
                 res['harness_errors'].append(f"{name}: no model for {why}")
@@ -138,7 +138,7 @@ def run_rt(name, L, build, res, identity_of=None):
             res['discharged'] += 1
             okp += 1
             if okp == 1 and eng.check3() == 'sat' and len(res['witnesses']) < 4:
-                pl = bytes(eng.solver.model().eval(sym.byte_term(e), model_completion=True).as_long() for e in p.e)
+                pl = bytes(eng.model().eval(sym.byte_term(e), model_completion=True).as_long() for e in p.e)
                 res['witnesses'].append({'kind': 'roundtrip', 'payload': pl.hex()})
         res.count('roundtrips')
     if okp == 0:
@@ -241,7 +241,7 @@ def run_p2s(L, res):
         else:
             res['refuted'] += 1
             if eng.check3() == 'sat':
-                m = eng.solver.model()
+                m = eng.model()
                 pl = rdrdrv.model_bytes(m, SymBytes(list(f[3:3 + n])))
                 res['cex'].append({'kind': 'roundtrip', 'payload': pl.hex(), 'why': "parse(frame).serialize() differs from the frame", 'dedup': f"p2s:{L}"})
         res.count('p2s')
@@ -291,7 +291,7 @@ def run_hist(validate, res):
             else:
                 res['refuted'] += 1
                 if eng.check3(H['p'].term() != H['q'].term()) == 'sat':
-                    m = eng.solver.model()
+                    m = eng.model()
                     hdr = bytes([0xD3, 0, L])
                     cc = rdrdrv.model_bytes(m, H['c'])
                     res['cex'].append({'kind': 'parseseq', 'frames': [(hdr + rdrdrv.model_bytes(m, H[k]) + cc).hex() for k in ('p', 'q')], 'validate': 0,
